@@ -175,6 +175,17 @@ def run(prog: Program, L: Ledger) -> None:
     L.rule("G2", "every stochastic call site's receiver has provenance Driver._rng; .rng/._rng bound exactly once each")
     L.rule("G3", "seed: int|None is honoured for every non-negative int: case analysis None/0/k>0 through Driver.__init__ into PCG64(...)")
     L.rule("G4", "no clock, pid, hash()/id() ordering or set-iteration dependence on simulation paths")
+    L.rule("G5", "no mutable object (package-class instance, numpy array, list/dict/set) defined at module or class level is handed out as per-object state: two simulations built in one process share nothing but code and constants")
+    from ..sharing import shared_escapes
+
+    esc, n_shared = shared_escapes(prog)
+    L.floor("module-level / class-level mutable objects and mutable default arguments examined", n_shared, 5)
+    for e_ in esc:
+        L.violation("G5", f"{e_.func}:shared-{e_.name}", e_.where,
+                    f"`{e_.name}` ({e_.kind}, created once at {e_.defined}) is {e_.how}: every object built this way holds the SAME mutable object",
+                    "tune it on one simulation (e.g. move.operation.step_size = …, op.mask[i, :] = False); a second simulation built afterwards in the same process with the same seed and code starts from the tuned value: its trajectory differs from the first run's", e_.name)
+    if not esc:
+        L.ok("G5", "package:no-shared-mutable-defaults", "src/quansino", f"{n_shared} candidates")
     L.assume("numpy Generator(PCG64(seed)) is a deterministic function of seed and of the sequence of calls made on it")
 
     driver = prog.cls("Driver")
